@@ -132,7 +132,11 @@ func chainStream(ics ...grpc.StreamServerInterceptor) grpc.StreamServerIntercept
 }
 
 func newSrv(cfg string) *srv {
-	lg, err := logger.NewLogger(logger.WithFormat("json"), logger.WithLevel("info"), logger.WithOutputPaths("/dev/null"))
+	logTo := "/dev/null"
+	if p := os.Getenv("VERIF_C19_LOG"); p != "" {
+		logTo = p
+	}
+	lg, err := logger.NewLogger(logger.WithFormat("json"), logger.WithLevel("info"), logger.WithOutputPaths(logTo))
 	if err != nil {
 		fatal("logger: %v", err)
 	}
@@ -149,6 +153,21 @@ func newSrv(cfg string) *srv {
 	switch cfg {
 	case "":
 	case "exp":
+		if dbg := os.Getenv("VERIF_C19_EXPFLAGS"); dbg != "" { // development aid: bisect the configuration
+			for _, f := range strings.Split(dbg, ",") {
+				switch f {
+				case "opt:pipeline":
+					opts = append(opts, server.WithListObjectsPipelineEnabled(true))
+				case "opt:cache":
+					opts = append(opts, server.WithCheckQueryCacheEnabled(true), server.WithCheckIteratorCacheEnabled(true), server.WithListObjectsIteratorCacheEnabled(true), server.WithCacheControllerEnabled(true))
+				case "opt:shared":
+					opts = append(opts, server.WithSharedIteratorEnabled(true))
+				default:
+					exps = append(exps, f)
+				}
+			}
+			break
+		}
 		exps = append(exps, serverconfig.ExperimentalCheckOptimizations, serverconfig.ExperimentalListObjectsOptimizations,
 			serverconfig.ExperimentalPipelineListObjects, serverconfig.ExperimentalWeightedGraphCheck, serverconfig.ExperimentalDatastoreThrottling)
 		opts = append(opts,
